@@ -32,6 +32,13 @@ def run(check, pool, Task):
             for dt in (('int32', 'int16', 'int64') if thorough else ('int32',)):
                 tasks.append(Task(f'wrappers:{kind}[{dt}].oriented() {d}', c15.oriented_task, (kind, d), {'timeout': cap - 60, 'dtype': dt}, timeout=cap,
                                   meta={'level': 'wrapper', 'kind': kind, 'deriv': d, 'dtype': dt}))
+    # as many rings as polygons although there are holes: a hole balanced by a ring-less element
+    for polys in ([[3, 3], []], [[], [3, 3]]):
+        tasks.append(Task(f'kernel:orient_polygons polygons={polys} leading_rings=0 (ring count == polygon count)', c15.explore, (polys,), {'lead_rings': 0, 'timeout': cap - 60},
+                          timeout=cap, meta={'level': 'kernel', 'polys': polys, 'lead': 0}))
+    for kind, base in (('polygon', [[3, 3], None]), ('polygon', [[], [3, 3], [3]][:2]), ('multipolygon', [[[3, 3], []], None, [[3]]])):
+        tasks.append(Task(f'wrappers:{kind}.oriented() identity elements={base} (ring count == polygon count)', c15.oriented_task, (kind, 'identity'),
+                          {'timeout': cap - 60, 'base': base}, timeout=cap, meta={'level': 'wrapper', 'kind': kind, 'deriv': 'identity', 'base': base}))
     res = pool(tasks)
     for t in tasks:
         r = res.get(t.name, {'status': 'error', 'detail': 'no result'})
@@ -42,7 +49,7 @@ def run(check, pool, Task):
                     bad, wit = c15.replay(m['polys'], m['lead'], _integral(r['model']), m.get('int_dtype'))
                 else:
                     model = _integral(r.get('model') or {})
-                    bad, wit = c15.replay_oriented(m['kind'], m['deriv'], model, dtype=m.get('dtype', 'float64'))
+                    bad, wit = c15.replay_oriented(m['kind'], m['deriv'], model, specs=m.get('base'), dtype=m.get('dtype', 'float64'))
             except OverflowError as e:
                 check.record(t.name, dict(r, status='inconclusive', detail=f'counterexample not representable in the coordinate subtype: {e}'), 'paths', m)
                 continue
